@@ -24,6 +24,19 @@ cd $H
 if [ "$what" = all ] || [ "$what" = vcheck ]; then
   go build -tags verif -overlay $B/overlay.json -o $B/vcheck ./cmd/vcheck || { echo "HARNESS-ERROR: harness build failed"; exit 2; }
 fi
+if [ "$what" = narrow ]; then
+  # width-narrowed copy of counts.go (8/16-bit counters), generated from the current file and overlaid into the whole program
+  mkdir -p $B/narrow
+  sed -e 's/^type Count32 uint32$/type Count32 uint8/' -e 's/^type Count64 uint64$/type Count64 uint16/' \
+      -e 's/math\.MaxUint32/math.MaxUint8/g' -e 's/math\.MaxUint64/math.MaxUint16/g' /repo/counts/counts.go > $B/narrow/counts.go
+  grep -q '^type Count32 uint8$' $B/narrow/counts.go && grep -q '^type Count64 uint16$' $B/narrow/counts.go || { echo "HARNESS-ERROR: cannot narrow counts.go (type definitions not found)"; exit 2; }
+  python3 - <<PY
+import json
+o=json.load(open("$B/overlay.json")); o["Replace"]["/repo/counts/counts.go"]="$B/narrow/counts.go"
+json.dump(o,open("$B/overlay-narrow.json","w"),indent=1)
+PY
+  go build -tags verif -overlay $B/overlay-narrow.json -o $B/vcheck-narrow ./cmd/vcheck || { echo "HARNESS-ERROR: narrowed harness build failed"; exit 2; }
+fi
 if [ "$what" = all ] || [ "$what" = fakegit ]; then
   go build -o $B/fakegit/git ./cmd/fakegit || { echo "HARNESS-ERROR: fakegit build failed"; exit 2; }
 fi
